@@ -44,35 +44,65 @@ Qed.
 Definition fl (h : hrec) := (h_kind h, h_active h, h_closing h, h_closed h).
 
 (* ------------------------------------------------------------------ *)
-(* kinds never change, CLOSED is never reset, handles never disappear *)
+(* kinds never change, handles never disappear; [KF]: CLOSED flags unchanged
+   and new handles are not closed (every step but the closing phase);
+   [KFw]: CLOSED is never reset *)
 (* ------------------------------------------------------------------ *)
 Definition KF (s s' : lstate) : Prop :=
+  (length (hs s) <= length (hs s'))%nat /\
+  (forall i, (i < length (hs s))%nat ->
+    h_kind (hget s' i) = h_kind (hget s i) /\ h_closed (hget s' i) = h_closed (hget s i)) /\
+  (forall i, (length (hs s) <= i)%nat -> (i < length (hs s'))%nat -> h_closed (hget s' i) = false).
+
+Definition KFw (s s' : lstate) : Prop :=
   (length (hs s) <= length (hs s'))%nat /\
   forall i, (i < length (hs s))%nat ->
     h_kind (hget s' i) = h_kind (hget s i) /\
     (h_closed (hget s i) = true -> h_closed (hget s' i) = true).
 
-Lemma KF_refl s : KF s s.
+Lemma KF_KFw s s' : KF s s' -> KFw s s'.
+Proof. intros (A & B & _). split; [exact A|]. intros i Hi. destruct (B i Hi) as (K & C). split; [exact K|congruence]. Qed.
+
+Lemma KFw_refl s : KFw s s.
 Proof. split; [lia|auto]. Qed.
 
-Lemma KF_trans a b c : KF a b -> KF b c -> KF a c.
+Lemma KFw_trans a b c : KFw a b -> KFw b c -> KFw a c.
 Proof.
   intros [A1 A2] [B1 B2]. split; [lia|]. intros i Hi.
   destruct (A2 i Hi) as (K1 & C1). destruct (B2 i ltac:(lia)) as (K2 & C2).
   split; [congruence|auto].
 Qed.
 
+Lemma KF_refl s : KF s s.
+Proof. split; [lia|]. split; [auto|]. intros i A B. lia. Qed.
+
+Lemma KF_trans a b c : KF a b -> KF b c -> KF a c.
+Proof.
+  intros (A1 & A2 & A3) (B1 & B2 & B3). split; [lia|]. split.
+  - intros i Hi. destruct (A2 i Hi) as (K1 & C1). destruct (B2 i ltac:(lia)) as (K2 & C2).
+    split; congruence.
+  - intros i Hi Hi'. destruct (Nat.lt_ge_cases i (length (hs b))) as [L|G].
+    + destruct (B2 i L) as (_ & C2). rewrite C2. apply A3; auto.
+    + apply B3; auto.
+Qed.
+
 Lemma KF_hs s s' : hs s' = hs s -> KF s s'.
-Proof. intros E. split; unfold hget; rewrite E; [lia|auto]. Qed.
+Proof.
+  intros E. split; [rewrite E; lia|]. split.
+  - intros i _. unfold hget. rewrite E. auto.
+  - intros i A B. rewrite E in B. lia.
+Qed.
 
 Lemma KF_upd s i f :
   h_kind (f (hget s i)) = h_kind (hget s i) ->
-  (h_closed (hget s i) = true -> h_closed (f (hget s i)) = true) ->
+  h_closed (f (hget s i)) = h_closed (hget s i) ->
   KF s (upd_h s i f).
 Proof.
-  intros A B. split; [rewrite len_upd_h; lia|]. intros j Hj. rewrite hget_upd_h.
-  destruct (Nat.eqb i j && Nat.ltb i (length (hs s))) eqn:E; [|auto].
-  apply andb_prop in E. destruct E as [E _]. apply Nat.eqb_eq in E. subst j. auto.
+  intros A B. split; [rewrite len_upd_h; lia|]. split.
+  - intros j Hj. rewrite hget_upd_h.
+    destruct (Nat.eqb i j && Nat.ltb i (length (hs s))) eqn:E; [|auto].
+    apply andb_prop in E. destruct E as [E _]. apply Nat.eqb_eq in E. subst j. auto.
+  - intros j Hj Hj'. rewrite len_upd_h in Hj'. lia.
 Qed.
 
 (* ------------------------------------------------------------------ *)
@@ -160,8 +190,9 @@ Qed.
 
 Lemma Shape_KF s s' i : Shape s s' i -> KF s s'.
 Proof.
-  intros (A1 & _ & A3 & _). split; [lia|]. intros j _. destruct (A3 j) as (X1 & _ & X3).
-  split; [exact X1|congruence].
+  intros (A1 & _ & A3 & _). split; [lia|]. split.
+  - intros j _. destruct (A3 j) as (X1 & _ & X3). split; [exact X1|exact X3].
+  - intros j Hj Hj'. lia.
 Qed.
 
 Lemma Shape_QInv s s' i :
@@ -328,7 +359,16 @@ Qed.
 
 Lemma OnlyAt_KF s s' i :
   OnlyAt s s' i -> h_kind (hget s' i) = h_kind (hget s i) ->
-  (h_closed (hget s i) = true -> h_closed (hget s' i) = true) -> KF s s'.
+  h_closed (hget s' i) = h_closed (hget s i) -> KF s s'.
+Proof.
+  intros [A B] C D. split; [lia|]. split.
+  - intros j _. destruct (Nat.eq_dec j i) as [->|Hne]; [auto|]. rewrite B by exact Hne. auto.
+  - intros j Hj Hj'. lia.
+Qed.
+
+Lemma OnlyAt_KFw s s' i :
+  OnlyAt s s' i -> h_kind (hget s' i) = h_kind (hget s i) ->
+  (h_closed (hget s i) = true -> h_closed (hget s' i) = true) -> KFw s s'.
 Proof.
   intros [A B] C D. split; [lia|]. intros j _. destruct (Nat.eq_dec j i) as [->|Hne]; [auto|].
   rewrite B by exact Hne. auto.
@@ -717,7 +757,10 @@ Proof.
       * destruct (Nat.eq_dec j (length (hs s))) as [->|Hne].
         -- rewrite hget_init_new. reflexivity.
         -- rewrite hget_overflow by (rewrite len_init; lia). reflexivity.
-  - split; [rewrite len_init; lia|]. intros j Hj. rewrite hget_init_old by exact Hj. auto.
+  - split; [rewrite len_init; lia|]. split.
+    + intros j Hj. rewrite hget_init_old by exact Hj. auto.
+    + intros j Hj Hj'. rewrite len_init in Hj'. assert (j = length (hs s)) by lia. subst j.
+      rewrite hget_init_new. reflexivity.
 Qed.
 
 (* ------------------------------------------------------------------ *)
@@ -814,7 +857,7 @@ Proof.
     + destruct (is_watcher s i) eqn:W; [|exact Same]. cbn [fst].
       destruct (watcher_stop_spec s i (LInvG_RT _ _ _ Hinv) Q Hi W) as (Q2 & O2 & F2 & _).
       split; [exact Q2|]. unfold fl in F2. inversion F2 as [[F21 F22 F23 F24]].
-      apply OnlyAt_KF with (i := i); auto. congruence.
+      apply OnlyAt_KF with (i := i); auto.
   - (* LRef *)
     destruct (usable s i); [|exact Same]. cbn [fst].
     destruct (Shape_handle_ref s i) as (S & A).
@@ -909,4 +952,955 @@ Proof.
   - apply LQS_l_close.
   - apply LQS_eq. unfold async_send. destruct (h_pending (hget s i)); reflexivity.
   - apply LQS_eq. unfold work_submit. match goal with |- context [if ?c then _ else _] => destruct c end; reflexivity.
+Qed.
+
+(* ------------------------------------------------------------------ *)
+(* traces                                                             *)
+(* ------------------------------------------------------------------ *)
+(* evs is what a step from s to s' emitted:
+   - kinds stay, CLOSED is never reset;
+   - every callback for handle i (tags 0-4 timer/idle/prepare/check/async and
+     6 close; tag 5 carries a work id) finds i not yet CLOSED at s;
+   - after a close callback for i, i is CLOSED at s';
+   - inside evs, no callback for i comes after a close callback for i. *)
+Definition TrOK (s : lstate) (evs : list levent) (s' : lstate) : Prop :=
+  KFw s s' /\
+  (forall i, (i < length (hs s'))%nat -> h_closed (hget s' i) = true ->
+             ((i < length (hs s))%nat /\ h_closed (hget s i) = true) \/ exists nw, In (VCb 6 i nw) evs) /\
+  (forall tag i nw, In (VCb tag i nw) evs -> tag <> 5%nat -> (i < length (hs s))%nat ->
+                    h_closed (hget s i) = false) /\
+  (forall i nw, In (VCb 6 i nw) evs -> (i < length (hs s'))%nat /\ h_closed (hget s' i) = true) /\
+  (forall pre tag i nw post, evs = pre ++ VCb tag i nw :: post -> tag <> 5%nat ->
+                             forall nw', ~ In (VCb 6 i nw') pre).
+
+Lemma TrOK_nocb s evs s' :
+  KF s s' -> forallb (fun e => negb (is_cb e)) evs = true -> TrOK s evs s'.
+Proof.
+  intros K N. rewrite forallb_forall in N.
+  assert (NC : forall tag i nw, ~ In (VCb tag i nw) evs).
+  { intros tag i nw H. specialize (N _ H). discriminate. }
+  unfold TrOK. splits; auto.
+  - apply KF_KFw. exact K.
+  - intros i Hi Hc. left. destruct K as (L & K1 & K2).
+    destruct (Nat.lt_ge_cases i (length (hs s))) as [Lt|Ge].
+    + destruct (K1 i Lt) as (_ & C). split; [exact Lt|congruence].
+    + rewrite (K2 i Ge Hi) in Hc. discriminate.
+  - intros tag i nw H. exfalso. eapply NC; eauto.
+  - intros i nw H. exfalso. eapply NC; eauto.
+  - intros pre tag i nw post E. exfalso. apply (NC tag i nw). rewrite E. apply in_or_app. right. left. reflexivity.
+Qed.
+
+Lemma TrOK_rebase s s1 evs s' : hs s1 = hs s -> TrOK s1 evs s' -> TrOK s evs s'.
+Proof. intros H T. unfold TrOK, KFw, hget in *. rewrite H in T. exact T. Qed.
+
+Lemma list_eq_app_split {A} (a b c d : list A) :
+  a ++ b = c ++ d ->
+  (exists m, a = c ++ m /\ d = m ++ b) \/ (exists m, c = a ++ m /\ b = m ++ d).
+Proof.
+  revert c. induction a as [|x a IH]; intros c E.
+  - right. exists c. simpl in E. auto.
+  - destruct c as [|y c].
+    + left. exists (x :: a). simpl in *. auto.
+    + simpl in E. inversion E; subst. destruct (IH c H1) as [(m & E1 & E2)|(m & E1 & E2)].
+      * left. exists m. subst. auto.
+      * right. exists m. subst. auto.
+Qed.
+
+Lemma TrOK_nil s s' : KF s s' -> TrOK s [] s'.
+Proof. intros K. apply TrOK_nocb; auto. Qed.
+
+Lemma TrOK_app s e1 s1 e2 s2 : TrOK s e1 s1 -> TrOK s1 e2 s2 -> TrOK s (e1 ++ e2) s2.
+Proof.
+  intros (K1 & X1 & B1 & C1 & D1) (K2 & X2 & B2 & C2 & D2). unfold TrOK. splits.
+  - eapply KFw_trans; eauto.
+  - intros i Hi Hc. destruct (X2 i Hi Hc) as [(V1 & H1)|(nw & H)].
+    + destruct (X1 i V1 H1) as [H0|(nw & H)]; [left; exact H0|].
+      right. exists nw. apply in_or_app. auto.
+    + right. exists nw. apply in_or_app. auto.
+  - intros tag i nw H Ht Hi. apply in_app_or in H. destruct H as [H|H]; [eauto|].
+    destruct (h_closed (hget s i)) eqn:E; [|reflexivity].
+    destruct K1 as [L1 K1]. destruct (K1 i Hi) as (_ & M). specialize (M E).
+    rewrite (B2 tag i nw H Ht ltac:(lia)) in M. discriminate.
+  - intros i nw H. apply in_app_or in H. destruct H as [H|H]; [|eauto].
+    destruct (C1 i nw H) as (V & C). destruct K2 as [L2 K2]. destruct (K2 i V) as (_ & M). split; [lia|auto].
+  - intros pre tag i nw post E Ht nw' Hin.
+    (* where does the split fall? *)
+    destruct (list_eq_app_split e1 e2 pre (VCb tag i nw :: post) E) as [(m & E1 & E2)|(m & E1 & E2)].
+    + (* event in e1... or at the boundary *)
+      destruct m as [|x m].
+      * simpl in E2. rewrite app_nil_r in E1. subst pre.
+        destruct (C1 i nw' Hin) as (V & C).
+        assert (Hev : In (VCb tag i nw) e2) by (rewrite <- E2; left; reflexivity).
+        rewrite (B2 tag i nw Hev Ht V) in C. discriminate.
+      * simpl in E2. inversion E2; subst x. subst e1.
+        eapply (D1 pre tag i nw m); eauto.
+    + (* event in e2 *)
+      subst pre. apply in_app_or in Hin. destruct Hin as [Hin|Hin].
+      * destruct (C1 i nw' Hin) as (V & C).
+        assert (Hev : In (VCb tag i nw) e2) by (rewrite E2; apply in_or_app; right; left; reflexivity).
+        rewrite (B2 tag i nw Hev Ht V) in C. discriminate.
+      * eapply (D2 m tag i nw post); eauto.
+Qed.
+
+(* ------------------------------------------------------------------ *)
+(* callbacks and phases                                               *)
+(* ------------------------------------------------------------------ *)
+Definition Good (s : lstate) (p w : list nat) : Prop := LInvG s p w /\ QInv s.
+
+Lemma lapis_spec os : forall s p w,
+  Good s p w ->
+  Good (fst (lapis s os)) p w /\ TrOK s (snd (lapis s os)) (fst (lapis s os)) /\ LQS s (fst (lapis s os)).
+Proof.
+  induction os as [|o os IH]; intros s p w [Hinv Q]; cbn [lapis].
+  - splits; auto. + split; auto. + apply TrOK_nil. apply KF_refl. + apply LQS_eq. reflexivity.
+  - pose proof (LInvG_lapi s p w o Hinv) as I1.
+    destruct (lapi_spec s p w o Hinv Q) as (Q1 & K1).
+    pose proof (lapi_no_cb s o) as N1. pose proof (LQS_lapi s o) as L1.
+    destruct (lapi s o) as [s1 e1]. cbn [fst snd] in *.
+    destruct (IH s1 p w (conj I1 Q1)) as (G2 & T2 & L2).
+    destruct (lapis s1 os) as [s2 e2]. cbn [fst snd] in *.
+    splits; auto.
+    + apply TrOK_app with (s1 := s1); auto. apply TrOK_nocb; auto.
+    + eapply LQS_trans; eauto.
+Qed.
+
+Lemma callback_gen s0 s p w beh tag i :
+  Good s p w -> KFw s0 s ->
+  (forall j, (j < length (hs s))%nat -> h_closed (hget s j) = true ->
+             ((j < length (hs s0))%nat /\ h_closed (hget s0 j) = true) \/ (tag = 6%nat /\ j = i)) ->
+  (tag <> 5%nat -> (i < length (hs s0))%nat -> h_closed (hget s0 i) = false) ->
+  (tag = 6%nat -> (i < length (hs s))%nat /\ h_closed (hget s i) = true) ->
+  Good (fst (callback s beh tag i)) p w /\
+  TrOK s0 (snd (callback s beh tag i)) (fst (callback s beh tag i)) /\
+  LQS s (fst (callback s beh tag i)).
+Proof.
+  intros [Hinv Q] K0 E0 B C. unfold callback.
+  set (s1 := set_cbcount s (S (cbcount s))).
+  set (ops := if Nat.eqb (cbcount s) cap then LStopLoop :: close_all s1
+              else if Nat.ltb cap (cbcount s) then [] else beh (cbcount s)).
+  assert (G1 : Good s1 p w).
+  { split; [eapply LInvG_core; [|exact Hinv]; reflexivity|apply QInv_fields with (s := s); auto]. }
+  destruct (lapis_spec ops s1 p w G1) as (G2 & T2 & L2).
+  destruct (lapis s1 ops) as [s2 evs]. cbn [fst snd] in *.
+  splits; auto.
+  change (VCb tag i (now (ts s)) :: VAlive (loop_alive s) :: evs)
+    with ([VCb tag i (now (ts s)); VAlive (loop_alive s)] ++ evs).
+  apply TrOK_app with (s1 := s1); auto.
+  unfold TrOK. splits.
+  - exact K0.
+  - intros j Hj Hc. destruct (E0 j Hj Hc) as [H|(-> & ->)]; [left; exact H|].
+    right. exists (now (ts s)). left. reflexivity.
+  - intros tag' i' nw H Ht Hi. destruct H as [H|[H|[]]]; [|discriminate]. inversion H; subst. auto.
+  - intros i' nw H. destruct H as [H|[H|[]]]; [|discriminate]. inversion H; subst. apply C. reflexivity.
+  - intros pre tag' i' nw post E Ht nw' Hin.
+    destruct pre as [|x pre]; [destruct Hin|]. simpl in E. inversion E; subst x.
+    destruct pre as [|y pre]; simpl in H1; [discriminate|]. inversion H1; subst y.
+    destruct pre; discriminate.
+Qed.
+
+Lemma callback_spec s0 s p w beh tag i :
+  Good s p w -> KF s0 s ->
+  (tag <> 5%nat -> (i < length (hs s0))%nat -> h_closed (hget s0 i) = false) ->
+  tag <> 6%nat ->
+  Good (fst (callback s beh tag i)) p w /\
+  TrOK s0 (snd (callback s beh tag i)) (fst (callback s beh tag i)) /\
+  LQS s (fst (callback s beh tag i)).
+Proof.
+  intros G K0 B T6. apply callback_gen; auto.
+  - apply KF_KFw. exact K0.
+  - intros j Hj Hc. left. destruct K0 as (L & K1 & K2).
+    destruct (Nat.lt_ge_cases j (length (hs s0))) as [Lt|Ge].
+    + destruct (K1 j Lt) as (_ & C). split; [exact Lt|congruence].
+    + rewrite (K2 j Ge Hj) in Hc. discriminate.
+  - intros E. congruence.
+Qed.
+
+Lemma Good_core s s' p w :
+  Good s p w -> hcore s' = hcore s -> queues s' = queues s -> Good s' p w.
+Proof.
+  intros [Hinv Q] C E. split; [eapply LInvG_core; eauto|].
+  unfold hcore in C. inversion C. apply QInv_fields with (s := s); auto. congruence.
+Qed.
+
+Lemma closed_false_of_active s p w i :
+  LInvG s p w -> (i < length (hs s))%nat -> h_active (hget s i) = true -> h_closed (hget s i) = false.
+Proof.
+  intros [HI _] Hi Ha. destruct (hi_hok _ _ HI i Hi) as (A & B).
+  destruct (h_closed (hget s i)) eqn:E; [|reflexivity].
+  specialize (A (B eq_refl)). congruence.
+Qed.
+
+Lemma closed_false_of_not_closing s p w i :
+  LInvG s p w -> (i < length (hs s))%nat -> h_closing (hget s i) = false -> h_closed (hget s i) = false.
+Proof.
+  intros [HI _] Hi Hc. destruct (hi_hok _ _ HI i Hi) as (_ & B).
+  destruct (h_closed (hget s i)) eqn:E; [|reflexivity]. specialize (B eq_refl). congruence.
+Qed.
+
+Lemma KF_kind s s' i : KFw s s' -> (i < length (hs s))%nat -> h_kind (hget s' i) = h_kind (hget s i).
+Proof. intros [_ K] Hi. apply (K i Hi). Qed.
+
+(* uv__run_idle / prepare / check *)
+Lemma run_lq_spec fuel : forall s p w beh k tag,
+  Good s p w -> (k = KIdle \/ k = KPrepare \/ k = KCheck) -> tag <> 5%nat -> tag <> 6%nat ->
+  (forall j, In j (lq s) -> h_kind (hget s j) = k) ->
+  Good (fst (run_lq fuel s beh k tag)) p w /\
+  TrOK s (snd (run_lq fuel s beh k tag)) (fst (run_lq fuel s beh k tag)).
+Proof.
+  induction fuel as [|f IH]; intros s p w beh k tag G Hk T5 T6 LK; cbn [run_lq].
+  - split; [exact G|apply TrOK_nil; apply KF_refl].
+  - destruct (lq s) as [|i rest] eqn:El; [split; [exact G|apply TrOK_nil; apply KF_refl]|].
+    destruct G as [Hinv Q].
+    assert (Hin : In i (lq s)) by (rewrite El; left; reflexivity).
+    destruct (q_lq _ Q i Hin) as (Hi & Ha & Hw).
+    set (s1 := set_lq s rest).
+    set (s2 := wq_set s1 k (wq_get s1 k ++ [i])).
+    assert (H2 : hs s2 = hs s) by (unfold s2, s1; destruct k; reflexivity).
+    assert (G2h : forall j, hget s2 j = hget s j) by (intros j; unfold hget; rewrite H2; reflexivity).
+    assert (I2 : LInvG s2 p w).
+    { eapply LInvG_core; [|exact Hinv]. unfold s2. rewrite hcore_wq_set. reflexivity. }
+    assert (Q2 : QInv s2).
+    { destruct Q. constructor.
+      - intros k' j Hj. rewrite H2, G2h.
+        destruct (hkind_eqb k k') eqn:Ekk.
+        + assert (k = k') by (destruct k, k'; try discriminate; reflexivity). subst k'.
+          unfold s2 in Hj. rewrite wq_get_set_same in Hj by exact Hk.
+          apply in_app_or in Hj. destruct Hj as [Hj|[<-|[]]].
+          * apply q_w0. unfold s1 in Hj. destruct k; exact Hj.
+          * splits; auto. apply LK. left. reflexivity.
+        + assert (k <> k') by (intros <-; destruct k; discriminate).
+          unfold s2 in Hj. rewrite wq_get_set_other in Hj by assumption.
+          apply q_w0. unfold s1 in Hj. destruct k'; exact Hj.
+      - intros j Hj. unfold s2 in Hj. rewrite lq_wq_set in Hj. cbn [lq set_lq s1] in Hj.
+        unfold is_watcher, kind_is. rewrite H2, G2h. apply q_lq0. rewrite El. right. exact Hj.
+      - intros j Hj. rewrite H2, G2h. apply q_as0. unfold s2, s1 in Hj. destruct k; exact Hj.
+      - intros j Hj. rewrite G2h. apply q_rd0. unfold s2, s1 in Hj. destruct k; exact Hj. }
+    assert (K2 : KF s s2) by (apply KF_hs; exact H2).
+    destruct (callback_spec s s2 p w beh tag i (conj I2 Q2) K2) as (G3 & T3 & L3).
+    { intros _ _. eapply closed_false_of_active; eauto. }
+    { exact T6. }
+    destruct (callback s2 beh tag i) as [s3 e1]. cbn [fst snd] in *.
+    assert (LK3 : forall j, In j (lq s3) -> h_kind (hget s3 j) = k).
+    { intros j Hj. apply L3 in Hj. unfold s2 in Hj. rewrite lq_wq_set in Hj. cbn [lq set_lq s1] in Hj.
+      assert (Hjs : In j (lq s)) by (rewrite El; right; exact Hj).
+      destruct (q_lq _ Q j Hjs) as (Hj1 & _).
+      destruct T3 as (K3 & _). rewrite (KF_kind _ _ j K3 Hj1). apply LK. right. exact Hj. }
+    destruct (IH s3 p w beh k tag G3 Hk T5 T6 LK3) as (G4 & T4).
+    destruct (run_lq f s3 beh k tag) as [s4 e2]. cbn [fst snd] in *.
+    split; [exact G4|]. apply TrOK_app with (s1 := s3); auto.
+Qed.
+
+Lemma run_watchers_spec s p w beh k tag :
+  Good s p w -> (k = KIdle \/ k = KPrepare \/ k = KCheck) -> tag <> 5%nat -> tag <> 6%nat ->
+  Good (fst (run_watchers s beh k tag)) p w /\
+  TrOK s (snd (run_watchers s beh k tag)) (fst (run_watchers s beh k tag)).
+Proof.
+  intros [Hinv Q] Hk T5 T6. unfold run_watchers.
+  set (s1 := set_lq (wq_set s k []) (wq_get s k)).
+  assert (H1 : hs s1 = hs s) by (unfold s1; destruct k; reflexivity).
+  assert (G1h : forall j, hget s1 j = hget s j) by (intros j; unfold hget; rewrite H1; reflexivity).
+  assert (I1 : LInvG s1 p w).
+  { eapply LInvG_core; [|exact Hinv].
+    change (hcore s1) with (hcore (wq_set s k [])). apply hcore_wq_set. }
+  assert (Q1 : QInv s1).
+  { destruct Q. constructor.
+    - intros k' j Hj. rewrite H1, G1h.
+      destruct (hkind_eqb k k') eqn:Ekk.
+      + assert (k = k') by (destruct k, k'; try discriminate; reflexivity). subst k'.
+        change (wq_get s1 k) with (wq_get (wq_set s k []) k) in Hj.
+        rewrite wq_get_set_same in Hj by exact Hk. destruct Hj.
+      + assert (k <> k') by (intros <-; destruct k; discriminate).
+        change (wq_get s1 k') with (wq_get (wq_set s k []) k') in Hj.
+        rewrite wq_get_set_other in Hj by assumption. apply q_w0. exact Hj.
+    - intros j Hj. cbn [lq set_lq s1] in Hj. destruct (q_w0 k j Hj) as (A1 & A2 & A3).
+      unfold is_watcher, kind_is. rewrite H1, G1h. splits; auto.
+      change (is_watcher s j = true). apply is_watcher_kind. rewrite A3. tauto.
+    - intros j Hj. rewrite H1, G1h. apply q_as0. unfold s1 in Hj. destruct k; exact Hj.
+    - intros j Hj. rewrite G1h. apply q_rd0. unfold s1 in Hj. destruct k; exact Hj. }
+  assert (LK : forall j, In j (lq s1) -> h_kind (hget s1 j) = k).
+  { intros j Hj. cbn [lq set_lq s1] in Hj. rewrite G1h. apply (q_w _ Q k j Hj). }
+  destruct (run_lq_spec (length (wq_get s k)) s1 p w beh k tag (conj I1 Q1) Hk T5 T6 LK) as (G2 & T2).
+  split; [exact G2|]. apply TrOK_rebase with (s1 := s1); auto.
+Qed.
+
+(* uv__work_done: tag 5 carries a work id, not a handle *)
+Lemma run_wq_spec l : forall s p w beh,
+  Good s p (l ++ w) ->
+  Good (fst (run_wq l s beh)) p w /\ TrOK s (snd (run_wq l s beh)) (fst (run_wq l s beh)).
+Proof.
+  induction l as [|x rest IH]; intros s p w beh G; cbn [run_wq].
+  - split; [exact G|apply TrOK_nil; apply KF_refl].
+  - destruct G as [Hinv Q].
+    pose proof (LInvG_wq_deliver s p x (rest ++ w) Hinv) as I2.
+    set (s2 := set_works (set_nreq s (nreq s - 1)) _) in *.
+    assert (Q2 : QInv s2) by (apply QInv_fields with (s := s); auto).
+    assert (K2 : KF s s2) by (apply KF_hs; reflexivity).
+    assert (S3 : let r := (if w_has_after (nth x (works s) (mkW false false))
+                           then callback s2 beh 5 x else (s2, [])) in
+                 Good (fst r) p (rest ++ w) /\ TrOK s (snd r) (fst r)).
+    { destruct (w_has_after (nth x (works s) (mkW false false))); cbn zeta.
+      - destruct (callback_spec s s2 p (rest ++ w) beh 5 x (conj I2 Q2) K2) as (G3 & T3 & _).
+        + intros H. congruence.
+        + discriminate.
+        + split; assumption.
+      - split; [split; assumption|apply TrOK_nil; exact K2]. }
+    cbn zeta in S3.
+    destruct (if w_has_after (nth x (works s) (mkW false false)) then callback s2 beh 5 x else (s2, []))
+      as [s3 e1]. cbn [fst snd] in S3. destruct S3 as (G3 & T3).
+    destruct (IH s3 p w beh G3) as (G4 & T4).
+    destruct (run_wq rest s3 beh) as [s4 e2]. cbn [fst snd] in *.
+    split; [exact G4|apply TrOK_app with (s1 := s3); auto].
+Qed.
+
+(* the scan of uv__async_io *)
+Lemma run_alq_spec fuel : forall s p w beh,
+  Good s p w ->
+  Good (fst (run_alq fuel s beh)) p w /\ TrOK s (snd (run_alq fuel s beh)) (fst (run_alq fuel s beh)).
+Proof.
+  induction fuel as [|f IH]; intros s p w beh G; cbn [run_alq].
+  - split; [exact G|apply TrOK_nil; apply KF_refl].
+  - destruct (alq s) as [|i rest] eqn:El; [split; [exact G|apply TrOK_nil; apply KF_refl]|].
+    destruct G as [Hinv Q].
+    assert (Hin : In i (async_q s ++ alq s)) by (apply in_or_app; right; rewrite El; left; reflexivity).
+    destruct (q_as _ Q i Hin) as (Hi & Hk & Hc).
+    set (s1 := set_alq s rest). set (s2 := set_async s1 (async_q s1 ++ [i])).
+    assert (I2 : LInvG s2 p w) by (eapply LInvG_core; [|exact Hinv]; reflexivity).
+    assert (Q2 : QInv s2).
+    { destruct Q. constructor; auto.
+      intros j Hj. change (async_q s2 ++ alq s2) with ((async_q s ++ [i]) ++ rest) in Hj.
+      apply q_as0. rewrite El. rewrite !in_app_iff in *. simpl in *. intuition (subst; auto). }
+    assert (K2 : KF s s2) by (apply KF_hs; reflexivity).
+    assert (S4 : let r := (if h_pending (hget s2 i)
+                           then (if h_hascb (hget s2 i)
+                                 then callback (upd_h s2 i (with_pending false)) beh 4 i
+                                 else (upd_h s2 i (with_pending false), []))
+                           else (s2, [])) in
+                 Good (fst r) p w /\ TrOK s (snd r) (fst r)).
+    { destruct (h_pending (hget s2 i)); cbn zeta; [|split; [split; assumption|apply TrOK_nil; exact K2]].
+      set (s3 := upd_h s2 i (with_pending false)).
+      assert (S3 : Shape s2 s3 i) by (apply Shape_upd; reflexivity).
+      assert (I3 : LInvG s3 p w) by (apply LInvG_upd_h_inert; [apply flags_same_pending|exact I2]).
+      assert (Q3 : QInv s3).
+      { apply Shape_QInv with (s := s2) (i := i); auto. right. apply upd_h_active_same. reflexivity. }
+      assert (K3 : KF s s3) by (eapply KF_trans; [exact K2|apply (Shape_KF _ _ _ S3)]).
+      destruct (h_hascb (hget s2 i)).
+      - destruct (callback_spec s s3 p w beh 4 i (conj I3 Q3) K3) as (G4 & T4 & _).
+        + intros _ _. eapply closed_false_of_not_closing; eauto.
+        + discriminate.
+        + split; assumption.
+      - split; [split; assumption|apply TrOK_nil; exact K3]. }
+    cbn zeta in S4.
+    match goal with |- context [let '(s4, e1) := ?x in _] => destruct x as [s4 e1] end.
+    cbn [fst snd] in S4. destruct S4 as (G4 & T4).
+    destruct (IH s4 p w beh G4) as (G5 & T5).
+    destruct (run_alq f s4 beh) as [s5 e2]. cbn [fst snd] in *.
+    split; [exact G5|apply TrOK_app with (s1 := s4); auto].
+Qed.
+
+Lemma Good_update_time s p w : Good s p w -> Good (update_time s) p w.
+Proof.
+  intros [Hinv Q]. split; [apply LInvG_update_time; exact Hinv|].
+  apply QInv_fields with (s := s); auto.
+Qed.
+
+Lemma KF_update_time s : KF s (update_time s).
+Proof. apply KF_hs. reflexivity. Qed.
+
+(* uv__io_poll *)
+Lemma io_poll_spec s p beh timeout :
+  Good s p [] ->
+  Good (fst (io_poll s beh timeout)) p [] /\
+  TrOK s (snd (io_poll s beh timeout)) (fst (io_poll s beh timeout)).
+Proof.
+  intros G. pose proof (LInvG_io_poll s p beh timeout (proj1 G)) as IP.
+  unfold io_poll in *. destruct (efd s).
+  - set (s1 := set_efd (update_time s) false) in *.
+    assert (G1 : Good s1 p []).
+    { eapply Good_core with (s := update_time s); [apply Good_update_time; exact G| |]; reflexivity. }
+    assert (K1 : KF s s1) by (apply KF_hs; reflexivity).
+    assert (S2 : let r := (if wq_pending s1 then run_wq (wq (set_wqp s1 false)) (set_wq (set_wqp s1 false) []) beh
+                           else (s1, [])) in
+                 Good (fst r) p [] /\ TrOK s (snd r) (fst r)).
+    { destruct (wq_pending s1); cbn zeta; [|split; [exact G1|apply TrOK_nil; exact K1]].
+      set (s' := set_wqp s1 false).
+      assert (G' : Good (set_wq s' []) p (wq s' ++ [])).
+      { destruct G1 as [I1 Q1]. split.
+        - apply LInvG_detach_wq. eapply LInvG_core; [|exact I1]. reflexivity.
+        - apply QInv_fields with (s := s1); auto. }
+      destruct (run_wq_spec (wq s') (set_wq s' []) p [] beh G') as (G2 & T2).
+      split; [exact G2|]. apply TrOK_rebase with (s1 := set_wq s' []); [reflexivity|exact T2]. }
+    cbn zeta in S2.
+    match goal with |- context [let '(s2, e1) := ?x in _] => destruct x as [s2 e1] end.
+    cbn [fst snd] in S2. destruct S2 as (G2 & T2).
+    set (s3 := set_alq (set_async s2 []) (async_q s2)).
+    assert (G3 : Good s3 p []).
+    { destruct G2 as [I2 Q2]. split; [eapply LInvG_core; [|exact I2]; reflexivity|].
+      destruct Q2. constructor; auto.
+      intros j Hj. apply q_as0. cbn [async_q alq set_alq set_async s3] in Hj. simpl in Hj.
+      apply in_or_app. left. exact Hj. }
+    destruct (run_alq_spec (length (async_q s2)) s3 p [] beh G3) as (G4 & T4).
+    destruct (run_alq (length (async_q s2)) s3 beh) as [s4 e2]. cbn [fst snd] in *.
+    split; [exact G4|].
+    change (vpoll s (if metrics s then 0 else timeout) :: e1 ++ e2)
+      with ([vpoll s (if metrics s then 0 else timeout)] ++ (e1 ++ e2)).
+    apply TrOK_app with (s1 := s); [apply TrOK_nocb; [apply KF_refl|reflexivity]|].
+    apply TrOK_app with (s1 := s2); auto.
+  - assert (U : Good (update_time s) p [] /\ KF s (update_time s))
+      by (split; [apply Good_update_time; exact G|apply KF_update_time]).
+    destruct U as (GU & KU).
+    destruct (timeout =? 0); [cbn [fst snd]; split; [exact GU|apply TrOK_nocb; [exact KU|reflexivity]]|].
+    destruct (timeout <? 0).
+    + cbn [fst snd] in *. split; [|apply TrOK_nocb; [apply KF_hs; reflexivity|reflexivity]].
+      split; [exact IP|]. apply QInv_fields with (s := s); auto. apply G.
+    + destruct (metrics s).
+      * destruct (timeout - (clock s - now (ts s)) <=? 0); cbn [fst snd] in *.
+        -- split; [exact GU|apply TrOK_nocb; [exact KU|reflexivity]].
+        -- split; [|apply TrOK_nocb; [apply KF_hs; reflexivity|reflexivity]].
+           split; [exact IP|]. apply QInv_fields with (s := s); auto. apply G.
+      * cbn [fst snd] in *. split; [|apply TrOK_nocb; [apply KF_hs; reflexivity|reflexivity]].
+        split; [exact IP|]. apply QInv_fields with (s := s); auto. apply G.
+Qed.
+
+(* uv__run_closing_handles: the only place close callbacks come from *)
+Lemma run_closing_spec l : forall s p w beh,
+  Good s (l ++ p) w ->
+  Good (fst (run_closing l s beh)) p w /\ TrOK s (snd (run_closing l s beh)) (fst (run_closing l s beh)).
+Proof.
+  induction l as [|i rest IH]; intros s p w beh G; cbn [run_closing].
+  - split; [exact G|apply TrOK_nil; apply KF_refl].
+  - destruct G as [Hinv Q]. pose proof Hinv as [HI _].
+    assert (Hin : In i (closing s ++ (i :: rest) ++ p)).
+    { apply in_or_app. right. left. reflexivity. }
+    apply (hi_cl _ _ HI) in Hin. destruct Hin as (Hi & Hcl & Hcd).
+    pose proof (LInvG_finish_close s i (rest ++ p) w Hinv) as I2.
+    set (s1 := upd_h s i (with_closed true)) in *.
+    set (s2 := handle_unref s1 i) in *.
+    assert (G1 : hget s1 i = with_closed true (hget s i)) by (apply hget_upd_h_same; exact Hi).
+    assert (O1 : OnlyAt s s1 i) by apply OnlyAt_upd.
+    destruct (Shape_handle_unref s1 i) as (S2 & A2).
+    assert (Q1 : QInv s1).
+    { destruct O1 as [L1 O1].
+      apply QInv_frame with (s := s) (i := i); auto.
+      - intros j. destruct (Nat.eq_dec j i) as [->|Hne]; [rewrite G1; auto|rewrite O1 by exact Hne; auto].
+      - intros j Hne. rewrite O1 by exact Hne. reflexivity.
+      - right. rewrite G1. reflexivity. }
+    assert (Q2 : QInv s2) by (apply Shape_QInv with (s := s1) (i := i); auto).
+    assert (K2 : KFw s s2).
+    { eapply KFw_trans; [|apply KF_KFw; apply (Shape_KF _ _ _ S2)].
+      apply OnlyAt_KFw with (i := i); auto; rewrite G1; auto. }
+    assert (C2 : (i < length (hs s2))%nat /\ h_closed (hget s2 i) = true).
+    { destruct S2 as (L2 & _ & F2 & _). destruct (F2 i) as (_ & _ & F23).
+      unfold s2. rewrite L2, F23, G1. split; [unfold s1; rewrite len_upd_h; exact Hi|reflexivity]. }
+    assert (E2 : forall j, (j < length (hs s2))%nat -> h_closed (hget s2 j) = true ->
+                 ((j < length (hs s))%nat /\ h_closed (hget s j) = true) \/ (6%nat = 6%nat /\ j = i)).
+    { intros j Hj Hc. destruct (Nat.eq_dec j i) as [->|Hne]; [right; auto|left].
+      destruct S2 as (L2 & _ & F2 & _). destruct (F2 j) as (_ & _ & F23).
+      destruct O1 as [L1 O1]. unfold s2 in Hc, Hj. rewrite F23, O1 in Hc by exact Hne. split; [|exact Hc].
+      rewrite L2, L1 in Hj. exact Hj. }
+    destruct (callback_gen s s2 (rest ++ p) w beh 6 i (conj I2 Q2) K2 E2) as (G3 & T3 & _).
+    { intros _ _. exact Hcd. }
+    { intros _. exact C2. }
+    destruct (callback s2 beh 6 i) as [s3 e1]. cbn [fst snd] in *.
+    destruct (IH s3 p w beh G3) as (G4 & T4).
+    destruct (run_closing rest s3 beh) as [s4 e2]. cbn [fst snd] in *.
+    split; [exact G4|apply TrOK_app with (s1 := s3); auto].
+Qed.
+
+(* uv__run_timers *)
+Lemma l_collect_Q fuel : forall s p w, Good s p w -> QInv (l_collect fuel s) /\ KF s (l_collect fuel s).
+Proof.
+  induction fuel as [|f IH]; intros s p w G; cbn [l_collect]; [split; [apply G|apply KF_refl]|].
+  destruct (heap_min (hp (ts s))) as [k|] eqn:Em; [|split; [apply G|apply KF_refl]].
+  destruct (Z.ltb_spec (now (ts s)) (k_timeout k)); [split; [apply G|apply KF_refl]|].
+  destruct G as [Hinv Q]. pose proof Hinv as [HI _]. pose proof (hi_ti _ _ HI) as T.
+  assert (Hk : In k (els (ts s))).
+  { unfold heap_min in Em. destruct (h_tree (hp (ts s))); simpl in *; [discriminate|].
+    inversion Em; subst. left; reflexivity. }
+  destruct (ti_e1 _ T k Hk) as (Hit & Ha & _).
+  assert (Hi : (k_id k < length (hs s))%nat) by (rewrite <- (hi_len _ _ HI); exact Hit).
+  destruct (hi_sync _ _ HI (k_id k) Hi) as (S1 & _). rewrite Ha in S1. symmetry in S1.
+  apply andb_prop in S1. destruct S1 as [Kt Hact].
+  pose proof (Shape_l_timer_stop s p w (k_id k) Hinv Hi) as S.
+  set (s1 := l_timer_stop s (k_id k)) in *.
+  assert (Q1 : QInv s1).
+  { apply Shape_QInv with (s := s) (i := k_id k); auto. left. apply kind_not_watcher. left.
+    apply is_timer_kind. exact Kt. }
+  set (s2 := set_ts s1 (mkT (now (ts s1)) (counter (ts s1)) (hp (ts s1)) (tms (ts s1)) (ready (ts s1) ++ [k_id k]))).
+  assert (I2 : LInvG s2 p w).
+  { pose proof (LInvG_l_collect 1 s p w Hinv) as X. cbn [l_collect] in X. rewrite Em in X.
+    destruct (Z.ltb_spec (now (ts s)) (k_timeout k)); [lia|]. exact X. }
+  assert (Q2 : QInv s2).
+  { destruct Q1. constructor; auto.
+    intros j Hj. cbn [ready ts set_ts s2] in Hj. apply in_app_or in Hj. destruct Hj as [Hj|[<-|[]]].
+    - apply q_rd0. exact Hj.
+    - change (hget s2 (k_id k)) with (hget s1 (k_id k)).
+      destruct S as (_ & _ & F & _). destruct (F (k_id k)) as (_ & F2 & _). rewrite F2.
+      destruct (h_closing (hget s (k_id k))) eqn:E; [|reflexivity].
+      pose proof (LInvG_closing_inactive s p w (k_id k) Hinv E). congruence. }
+  destruct (IH s2 p w (conj I2 Q2)) as (Q3 & K3).
+  split; [exact Q3|].
+  eapply KF_trans; [apply (Shape_KF _ _ _ S)|]. eapply KF_trans; [apply KF_hs; reflexivity|exact K3].
+Qed.
+
+Lemma l_fire_spec fuel : forall s p w beh,
+  Good s p w ->
+  Good (fst (l_fire fuel s beh)) p w /\ TrOK s (snd (l_fire fuel s beh)) (fst (l_fire fuel s beh)).
+Proof.
+  induction fuel as [|f IH]; intros s p w beh G; cbn [l_fire].
+  - split; [exact G|apply TrOK_nil; apply KF_refl].
+  - destruct (ready (ts s)) as [|i rest] eqn:Er; [split; [exact G|apply TrOK_nil; apply KF_refl]|].
+    destruct G as [Hinv Q]. pose proof Hinv as [HI _]. pose proof (hi_ti _ _ HI) as T.
+    assert (Hin : In i (ready (ts s))) by (rewrite Er; left; reflexivity).
+    destruct (ti_r _ T i Hin) as (Hit & _).
+    assert (Hi : (i < length (hs s))%nat) by (rewrite <- (hi_len _ _ HI); exact Hit).
+    pose proof (hi_ready _ _ HI i Hin) as Kt.
+    pose proof (q_rd _ Q i Hin) as Hc.
+    pose proof (LInvG_pop_ready s p w i rest Hinv Er) as I0.
+    pose proof (LInvG_fire_step s p w i rest Hinv Er) as I1.
+    set (s0 := set_ts s (mkT (now (ts s)) (counter (ts s)) (hp (ts s)) (tms (ts s)) rest)) in *.
+    assert (Q0 : QInv s0).
+    { destruct Q. constructor; auto. intros j Hj. apply q_rd0. rewrite Er. right. exact Hj. }
+    pose proof (Shape_l_timer_again s0 p w i I0 Hi) as S1.
+    set (s1 := fst (l_timer_again s0 i)) in *.
+    assert (Q1 : QInv s1).
+    { apply Shape_QInv with (s := s0) (i := i); auto. left. apply kind_not_watcher. left.
+      apply is_timer_kind. exact Kt. }
+    assert (K1 : KF s s1) by (eapply KF_trans; [apply KF_hs; reflexivity|apply (Shape_KF _ _ _ S1)]).
+    destruct (callback_spec s s1 p w beh 0 i (conj I1 Q1) K1) as (G2 & T2 & _).
+    { intros _ _. eapply closed_false_of_not_closing; eauto. }
+    { discriminate. }
+    destruct (callback s1 beh 0 i) as [s2 e1]. cbn [fst snd] in *.
+    destruct (IH s2 p w beh G2) as (G3 & T3).
+    destruct (l_fire f s2 beh) as [s3 e2]. cbn [fst snd] in *.
+    split; [exact G3|apply TrOK_app with (s1 := s2); auto].
+Qed.
+
+Lemma l_run_timers_spec s p w beh :
+  Good s p w ->
+  Good (fst (l_run_timers s beh)) p w /\ TrOK s (snd (l_run_timers s beh)) (fst (l_run_timers s beh)).
+Proof.
+  intros G. unfold l_run_timers.
+  set (n := S (N.to_nat (h_n (hp (ts s))))).
+  destruct (l_collect_Q n s p w G) as (Q1 & K1).
+  pose proof (LInvG_l_collect n s p w (proj1 G)) as I1.
+  destruct (l_fire_spec (length (ready (ts (l_collect n s)))) (l_collect n s) p w beh (conj I1 Q1)) as (G2 & T2).
+  split; [exact G2|].
+  replace (snd (l_fire (length (ready (ts (l_collect n s)))) (l_collect n s) beh))
+    with ([] ++ snd (l_fire (length (ready (ts (l_collect n s)))) (l_collect n s) beh)) by reflexivity.
+  apply TrOK_app with (s1 := l_collect n s); [apply TrOK_nil; exact K1|exact T2].
+Qed.
+
+(* one iteration of uv_run *)
+Lemma iteration_spec s beh mode :
+  Good s [] [] ->
+  Good (fst (iteration s beh mode)) [] [] /\
+  TrOK s (snd (iteration s beh mode)) (fst (iteration s beh mode)).
+Proof.
+  intros G. unfold iteration.
+  destruct (run_watchers_spec s [] [] beh KIdle 1 G) as (G1 & T1); auto; try discriminate.
+  destruct (run_watchers s beh KIdle 1) as [s1 e1]. cbn [fst snd] in *.
+  destruct (run_watchers_spec s1 [] [] beh KPrepare 2 G1) as (G2 & T2); auto; try discriminate.
+  destruct (run_watchers s1 beh KPrepare 2) as [s2 e2]. cbn [fst snd] in *.
+  set (timeout := if (Nat.eqb mode 1 && match idle_q s with [] => true | _ => false end) || Nat.eqb mode 0
+                  then backend_timeout s2 else 0).
+  assert (G2' : Good (set_dirty s2 false) [] []) by (eapply Good_core; [exact G2| |]; reflexivity).
+  destruct (io_poll_spec (set_dirty s2 false) [] beh timeout G2') as (G3 & T3).
+  destruct (io_poll (set_dirty s2 false) beh timeout) as [s3 e3]. cbn [fst snd] in *.
+  destruct (run_watchers_spec s3 [] [] beh KCheck 3 G3) as (G4 & T4); auto; try discriminate.
+  destruct (run_watchers s3 beh KCheck 3) as [s4 e4]. cbn [fst snd] in *.
+  assert (G4' : Good (set_closing s4 []) (closing s4 ++ []) []).
+  { destruct G4 as [I4 Q4]. split; [apply LInvG_detach_closing; exact I4|apply set_closing_QInv; exact Q4]. }
+  destruct (run_closing_spec (closing s4) (set_closing s4 []) [] [] beh G4') as (G5 & T5).
+  destruct (run_closing (closing s4) (set_closing s4 []) beh) as [s5 e5]. cbn [fst snd] in *.
+  destruct (l_run_timers_spec (update_time s5) [] [] beh (Good_update_time _ _ _ G5)) as (G7 & T7).
+  destruct (l_run_timers (update_time s5) beh) as [s7 e6]. cbn [fst snd] in *.
+  split; [exact G7|].
+  apply TrOK_app with (s1 := s1); auto.
+  apply TrOK_app with (s1 := s2); auto.
+  apply TrOK_app with (s1 := s3); auto.
+  apply TrOK_app with (s1 := s4); auto.
+  apply TrOK_app with (s1 := s5); auto.
+Qed.
+
+Lemma run_loop_spec fuel : forall s beh mode,
+  Good s [] [] ->
+  Good (fst (fst (run_loop fuel s beh mode))) [] [] /\
+  TrOK s (snd (fst (run_loop fuel s beh mode))) (fst (fst (run_loop fuel s beh mode))).
+Proof.
+  induction fuel as [|f IH]; intros s beh mode G; cbn [run_loop].
+  - cbn [fst snd]. split; [exact G|apply TrOK_nil; apply KF_refl].
+  - destruct (iteration_spec s beh mode G) as (G1 & T1).
+    destruct (iteration s beh mode) as [s1 e1]. cbn [fst snd] in *.
+    destruct (negb (Nat.eqb mode 0)); [cbn [fst snd]; auto|].
+    destruct (loop_alive s1 && negb (stop_flag s1)); [|cbn [fst snd]; auto].
+    destruct (IH s1 beh mode G1) as (G2 & T2).
+    destruct (run_loop f s1 beh mode) as [[s2 e2] r2]. cbn [fst snd] in *.
+    split; [exact G2|apply TrOK_app with (s1 := s1); auto].
+Qed.
+
+Lemma vrun_no_cb r : forallb (fun e => negb (is_cb e)) [VRun r] = true.
+Proof. reflexivity. Qed.
+
+Lemma uv_run_spec fuel s beh mode :
+  Good s [] [] ->
+  Good (fst (uv_run fuel s beh mode)) [] [] /\
+  TrOK s (snd (uv_run fuel s beh mode)) (fst (uv_run fuel s beh mode)).
+Proof.
+  intros G. unfold uv_run.
+  set (s0 := if loop_alive s then s else update_time s).
+  assert (G0 : Good s0 [] []) by (unfold s0; destruct (loop_alive s); [exact G|apply Good_update_time; exact G]).
+  assert (K0 : KF s s0) by (unfold s0; destruct (loop_alive s); [apply KF_refl|apply KF_update_time]).
+  assert (S1 : let r := (if Nat.eqb mode 0 && loop_alive s && negb (stop_flag s0)
+                         then l_run_timers (update_time s0) beh else (s0, [])) in
+               Good (fst r) [] [] /\ TrOK s0 (snd r) (fst r)).
+  { destruct (Nat.eqb mode 0 && loop_alive s && negb (stop_flag s0)); cbn zeta.
+    - destruct (l_run_timers_spec (update_time s0) [] [] beh (Good_update_time _ _ _ G0)) as (A & B).
+      split; [exact A|]. apply TrOK_rebase with (s1 := update_time s0); [reflexivity|exact B].
+    - split; [exact G0|apply TrOK_nil; apply KF_refl]. }
+  cbn zeta in S1.
+  match goal with |- context [let '(s1, e0) := ?x in _] => destruct x as [s1 e0] end.
+  cbn [fst snd] in S1. destruct S1 as (G1 & T1).
+  assert (S2 : let r := (if loop_alive s && negb (stop_flag s1) then run_loop fuel s1 beh mode
+                         else (s1, [], loop_alive s)) in
+               Good (fst (fst r)) [] [] /\ TrOK s1 (snd (fst r)) (fst (fst r))).
+  { destruct (loop_alive s && negb (stop_flag s1)); cbn zeta.
+    - apply run_loop_spec. exact G1.
+    - cbn [fst snd]. split; [exact G1|apply TrOK_nil; apply KF_refl]. }
+  cbn zeta in S2.
+  destruct (if loop_alive s && negb (stop_flag s1) then run_loop fuel s1 beh mode
+            else (s1, [], loop_alive s)) as [[s2 e1] r'].
+  cbn [fst snd] in *. destruct S2 as (G2 & T2).
+  split.
+  - eapply Good_core; [exact G2| |]; reflexivity.
+  - apply TrOK_app with (s1 := s1); [|apply TrOK_app with (s1 := s2); [exact T2|]].
+    + apply TrOK_rebase with (s1 := s0); [|exact T1].
+      unfold s0. destruct (loop_alive s); reflexivity.
+    + apply TrOK_nocb; [apply KF_hs; reflexivity|reflexivity].
+Qed.
+
+Lemma lrun_spec os : forall s beh,
+  Good s [] [] ->
+  Good (fst (lrun s os beh)) [] [] /\ TrOK s (snd (lrun s os beh)) (fst (lrun s os beh)).
+Proof.
+  induction os as [|o os IH]; intros s beh G; [split; [exact G|apply TrOK_nil; apply KF_refl]|].
+  assert (Hgen : Good (fst (let '(s1, e1) := lapi s o in let '(s2, e2) := lrun s1 os beh in (s2, e1 ++ e2))) [] [] /\
+                 TrOK s (snd (let '(s1, e1) := lapi s o in let '(s2, e2) := lrun s1 os beh in (s2, e1 ++ e2)))
+                        (fst (let '(s1, e1) := lapi s o in let '(s2, e2) := lrun s1 os beh in (s2, e1 ++ e2)))).
+  { destruct G as [Hinv Q]. pose proof (LInvG_lapi s [] [] o Hinv) as I1.
+    destruct (lapi_spec s [] [] o Hinv Q) as (Q1 & K1). pose proof (lapi_no_cb s o) as N1.
+    destruct (lapi s o) as [s1 e1]. cbn [fst snd] in *.
+    destruct (IH s1 beh (conj I1 Q1)) as (G2 & T2).
+    destruct (lrun s1 os beh) as [s2 e2]. cbn [fst snd] in *.
+    split; [exact G2|apply TrOK_app with (s1 := s1); [apply TrOK_nocb; auto|exact T2]]. }
+  destruct o; try exact Hgen; cbn [lrun].
+  - (* LRun *)
+    destruct (uv_run_spec run_fuel s beh mode G) as (G1 & T1).
+    destruct (uv_run run_fuel s beh mode) as [s1 e1]. cbn [fst snd] in *.
+    destruct (IH s1 beh G1) as (G2 & T2).
+    destruct (lrun s1 os beh) as [s2 e2]. cbn [fst snd] in *.
+    split; [exact G2|].
+    change (VRunStart mode (loop_alive s) :: e1 ++ e2) with ([VRunStart mode (loop_alive s)] ++ (e1 ++ e2)).
+    apply TrOK_app with (s1 := s); [apply TrOK_nocb; [apply KF_refl|reflexivity]|].
+    apply TrOK_app with (s1 := s1); auto.
+  - (* LLoopClose *)
+    destruct (IH s beh G) as (G2 & T2).
+    destruct (lrun s os beh) as [s2 e2]. cbn [fst snd] in *.
+    split; [exact G2|].
+    change (VLoopClose (loop_close_code s) :: e2) with ([VLoopClose (loop_close_code s)] ++ e2).
+    apply TrOK_app with (s1 := s); [apply TrOK_nocb; [apply KF_refl|reflexivity]|exact T2].
+Qed.
+
+Lemma Good_init t0 m : Good (linit t0 m) [] [].
+Proof. split; [apply LInvG_init|apply QInv_init]. Qed.
+
+(* ------------------------------------------------------------------ *)
+(* the clauses of C02 on the loop-core model                          *)
+(* ------------------------------------------------------------------ *)
+Definition ltrace (t0 : Z) (m : bool) (os : list lop) (beh : nat -> list lop) : list levent :=
+  snd (lrun (linit t0 m) os beh).
+Definition lfinal (t0 : Z) (m : bool) (os : list lop) (beh : nat -> list lop) : lstate :=
+  fst (lrun (linit t0 m) os beh).
+
+Lemma ltrace_ok t0 m os beh :
+  Good (lfinal t0 m os beh) [] [] /\ TrOK (linit t0 m) (ltrace t0 m os beh) (lfinal t0 m os beh).
+Proof. apply lrun_spec. apply Good_init. Qed.
+
+(* uv_close emits nothing at all, in particular no callback *)
+Theorem close_not_reentrant s i : snd (lapi s (LClose i)) = [].
+Proof. cbn [lapi]. destruct (usable s i && negb (h_closing (hget s i))); reflexivity. Qed.
+
+(* no API call runs a callback *)
+Theorem api_not_reentrant s o : forallb (fun e => negb (is_cb e)) (snd (lapi s o)) = true.
+Proof. apply lapi_no_cb. Qed.
+
+(* no callback for handle i (timer/idle/prepare/check/async callback, or a
+   second close callback) after its close callback *)
+Theorem nothing_after_close_cb t0 m os beh pre i nw post tag nw' :
+  ltrace t0 m os beh = pre ++ VCb 6 i nw :: post -> tag <> 5%nat -> ~ In (VCb tag i nw') post.
+Proof.
+  intros E Ht Hin. destruct (ltrace_ok t0 m os beh) as (_ & (_ & _ & _ & _ & D)).
+  apply in_split in Hin. destruct Hin as (p1 & p2 & ->).
+  apply (D (pre ++ VCb 6 i nw :: p1) tag i nw' p2) with (nw' := nw); auto.
+  - rewrite E, <- app_assoc. reflexivity.
+  - apply in_or_app. right. left. reflexivity.
+Qed.
+
+Theorem close_cb_at_most_once t0 m os beh pre i nw post nw' :
+  ltrace t0 m os beh = pre ++ VCb 6 i nw :: post ->
+  ~ In (VCb 6 i nw') pre /\ ~ In (VCb 6 i nw') post.
+Proof.
+  intros E. split.
+  - destruct (ltrace_ok t0 m os beh) as (_ & (_ & _ & _ & _ & D)).
+    apply (D pre 6%nat i nw post E). discriminate.
+  - apply (nothing_after_close_cb t0 m os beh pre i nw post 6%nat nw' E). discriminate.
+Qed.
+
+(* the close callback of i is in the trace exactly when i is CLOSED at the end *)
+Theorem close_cb_iff_closed t0 m os beh i :
+  (exists nw, In (VCb 6 i nw) (ltrace t0 m os beh)) <->
+  ((i < length (hs (lfinal t0 m os beh)))%nat /\ h_closed (hget (lfinal t0 m os beh) i) = true).
+Proof.
+  destruct (ltrace_ok t0 m os beh) as (_ & (_ & X & _ & C & _)). split.
+  - intros (nw & H). apply (C i nw H).
+  - intros (Hi & Hc). destruct (X i Hi Hc) as [(H & _)|H]; [|exact H]. cbn in H. lia.
+Qed.
+
+(* close callbacks come from uv__run_closing_handles only: no other phase of
+   [iteration] (nor the initial timer pass of uv_run, nor an API call) emits
+   a callback with tag 6 *)
+Definition no_close (evs : list levent) : Prop := forall i nw, ~ In (VCb 6 i nw) evs.
+
+Lemma lapis_no_cb os : forall s, forallb (fun e => negb (is_cb e)) (snd (lapis s os)) = true.
+Proof.
+  induction os as [|o os IH]; intros s; cbn [lapis]; [reflexivity|].
+  pose proof (lapi_no_cb s o) as N. destruct (lapi s o) as [s1 e1]. specialize (IH s1).
+  destruct (lapis s1 os) as [s2 e2]. cbn [snd] in *. rewrite forallb_app, N, IH. reflexivity.
+Qed.
+
+Lemma no_close_nocb evs : forallb (fun e => negb (is_cb e)) evs = true -> no_close evs.
+Proof. intros N i nw H. rewrite forallb_forall in N. specialize (N _ H). discriminate. Qed.
+
+Lemma no_close_app a b : no_close a -> no_close b -> no_close (a ++ b).
+Proof. intros A B i nw H. apply in_app_or in H. destruct H; [eapply A|eapply B]; eauto. Qed.
+
+Lemma callback_no_close s beh tag j : tag <> 6%nat -> no_close (snd (callback s beh tag j)).
+Proof.
+  intros T6. unfold callback.
+  match goal with |- context [lapis ?a ?o] => pose proof (lapis_no_cb o a) as N; destruct (lapis a o) as [s3 e1] end.
+  cbn [snd] in *. intros i nw [H|[H|H]]; [inversion H; congruence|discriminate|].
+  eapply no_close_nocb; eauto.
+Qed.
+
+Lemma run_lq_no_close fuel : forall s beh k tag, tag <> 6%nat -> no_close (snd (run_lq fuel s beh k tag)).
+Proof.
+  induction fuel as [|f IH]; intros s beh k tag T6; cbn [run_lq]; [intros i nw []|].
+  destruct (lq s) as [|j rest]; [intros i nw []|].
+  match goal with |- context [callback ?a beh tag j] =>
+    pose proof (callback_no_close a beh tag j T6) as N; destruct (callback a beh tag j) as [s3 e1] end.
+  specialize (IH s3 beh k tag T6). destruct (run_lq f s3 beh k tag) as [s4 e2]. cbn [snd] in *.
+  apply no_close_app; auto.
+Qed.
+
+Lemma run_wq_no_close l : forall s beh, no_close (snd (run_wq l s beh)).
+Proof.
+  induction l as [|x rest IH]; intros s beh; cbn [run_wq]; [intros i nw []|].
+  match goal with |- context [if ?c then callback ?a beh 5 x else ?b] =>
+    assert (N : no_close (snd (if c then callback a beh 5 x else b)))
+      by (destruct c; [apply callback_no_close; discriminate|intros i nw []]);
+    destruct (if c then callback a beh 5 x else b) as [s3 e1] end.
+  specialize (IH s3 beh). destruct (run_wq rest s3 beh) as [s4 e2]. cbn [snd] in *.
+  apply no_close_app; auto.
+Qed.
+
+Lemma run_alq_no_close fuel : forall s beh, no_close (snd (run_alq fuel s beh)).
+Proof.
+  induction fuel as [|f IH]; intros s beh; cbn [run_alq]; [intros i nw []|].
+  destruct (alq s) as [|j rest]; [intros i nw []|].
+  match goal with |- context [let '(s4, e1) := ?x in _] =>
+    assert (N : no_close (snd x));
+    [|destruct x as [s4 e1]] end.
+  { repeat match goal with |- context [if ?c then _ else _] => destruct c end;
+      try (intros i nw []); apply callback_no_close; discriminate. }
+  specialize (IH s4 beh). destruct (run_alq f s4 beh) as [s5 e2]. cbn [snd] in *.
+  apply no_close_app; auto.
+Qed.
+
+Lemma no_close_single e : is_cb e = false -> no_close [e].
+Proof. intros H i nw [E|[]]. subst. discriminate. Qed.
+
+Lemma io_poll_no_close s beh timeout : no_close (snd (io_poll s beh timeout)).
+Proof.
+  unfold io_poll. destruct (efd s).
+  - match goal with |- context [let '(s2, e1) := ?x in _] =>
+      assert (N : no_close (snd x)); [|destruct x as [s2 e1]] end.
+    { match goal with |- context [if ?c then _ else _] => destruct c end;
+        [apply run_wq_no_close|intros i nw []]. }
+    match goal with |- context [run_alq ?n ?a beh] =>
+      pose proof (run_alq_no_close n a beh) as N2; destruct (run_alq n a beh) as [s4 e2] end.
+    cbn [snd] in *. intros i nw [H|H]; [discriminate|].
+    apply (no_close_app e1 e2 N N2 i nw H).
+  - destruct (timeout =? 0); [apply no_close_single; reflexivity|].
+    destruct (timeout <? 0).
+    + cbn [snd]. intros i nw [H|[H|[]]]; discriminate.
+    + destruct (metrics s); [destruct (timeout - (clock s - now (ts s)) <=? 0)|];
+        apply no_close_single; reflexivity.
+Qed.
+
+Lemma l_fire_no_close fuel : forall s beh, no_close (snd (l_fire fuel s beh)).
+Proof.
+  induction fuel as [|f IH]; intros s beh; cbn [l_fire]; [intros i nw []|].
+  destruct (ready (ts s)) as [|j rest]; [intros i nw []|].
+  match goal with |- context [callback ?a beh 0 j] =>
+    pose proof (callback_no_close a beh 0%nat j ltac:(discriminate)) as N; destruct (callback a beh 0 j) as [s2 e1] end.
+  specialize (IH s2 beh). destruct (l_fire f s2 beh) as [s3 e2]. cbn [snd] in *.
+  apply no_close_app; auto.
+Qed.
+
+Theorem close_cb_in_closing_phase_only s beh :
+  (forall o, no_close (snd (lapi s o))) /\
+  (forall k tag, tag <> 6%nat -> no_close (snd (run_watchers s beh k tag))) /\
+  (forall timeout, no_close (snd (io_poll s beh timeout))) /\
+  no_close (snd (l_run_timers s beh)).
+Proof.
+  splits.
+  - intros o. apply no_close_nocb. apply lapi_no_cb.
+  - intros k tag T6. unfold run_watchers. apply run_lq_no_close. exact T6.
+  - apply io_poll_no_close.
+  - unfold l_run_timers. apply l_fire_no_close.
+Qed.
+
+(* the run result: uv_run returned 0 *)
+Lemma run_loop_result fuel : forall s beh mode,
+  snd (run_loop fuel s beh mode) = loop_alive (fst (fst (run_loop fuel s beh mode))).
+Proof.
+  induction fuel as [|f IH]; intros s beh mode; cbn [run_loop]; [reflexivity|].
+  destruct (iteration s beh mode) as [s1 e1].
+  destruct (negb (Nat.eqb mode 0)); [reflexivity|].
+  destruct (loop_alive s1 && negb (stop_flag s1)); [|reflexivity].
+  specialize (IH s1 beh mode). destruct (run_loop f s1 beh mode) as [[s2 e2] r2]. exact IH.
+Qed.
+
+Lemma uv_run_result fuel s beh mode :
+  exists pre r, snd (uv_run fuel s beh mode) = pre ++ [VRun r] /\
+                (r = false -> loop_alive (fst (uv_run fuel s beh mode)) = false).
+Proof.
+  unfold uv_run.
+  set (s0 := if loop_alive s then s else update_time s).
+  destruct (if Nat.eqb mode 0 && loop_alive s && negb (stop_flag s0)
+            then l_run_timers (update_time s0) beh else (s0, [])) as [s1 e0] eqn:E1.
+  destruct (loop_alive s && negb (stop_flag s1)) eqn:E2.
+  - pose proof (run_loop_result fuel s1 beh mode) as R.
+    destruct (run_loop fuel s1 beh mode) as [[s2 e1] r']. cbn [fst snd] in *.
+    exists (e0 ++ e1), r'. split; [rewrite app_assoc; reflexivity|]. intros ->. symmetry. exact R.
+  - cbn [fst snd]. exists (e0 ++ []), (loop_alive s). split; [rewrite app_assoc; reflexivity|].
+    intros Ha. rewrite Ha in *. cbn in E1. unfold s0 in E1. rewrite Ha in E1.
+    rewrite andb_false_r in E1. cbn in E1. inversion E1; subst s1. exact Ha.
+Qed.
+
+Lemma lrun_app a : forall s b beh,
+  lrun s (a ++ b) beh =
+  (fst (lrun (fst (lrun s a beh)) b beh), snd (lrun s a beh) ++ snd (lrun (fst (lrun s a beh)) b beh)).
+Proof.
+  induction a as [|o a IH]; intros s b beh.
+  - cbn [app lrun fst snd]. destruct (lrun s b beh); reflexivity.
+  - assert (Hgen : forall s1 e1, lapi s o = (s1, e1) ->
+        (let '(s1, e1) := lapi s o in let '(s2, e2) := lrun s1 (a ++ b) beh in (s2, e1 ++ e2)) =
+        (fst (lrun (fst (let '(s1, e1) := lapi s o in let '(s2, e2) := lrun s1 a beh in (s2, e1 ++ e2))) b beh),
+         snd (let '(s1, e1) := lapi s o in let '(s2, e2) := lrun s1 a beh in (s2, e1 ++ e2)) ++
+         snd (lrun (fst (let '(s1, e1) := lapi s o in let '(s2, e2) := lrun s1 a beh in (s2, e1 ++ e2))) b beh))).
+    { intros s1 e1 E. rewrite E, (IH s1 b beh). destruct (lrun s1 a beh) as [s2 e2]. cbn [fst snd].
+      rewrite app_assoc. reflexivity. }
+    destruct o; cbn [app lrun];
+      try (destruct (lapi s _) as [s1 e1] eqn:E; apply (Hgen s1 e1); reflexivity).
+    + destruct (uv_run run_fuel s beh mode) as [s1 e1]. rewrite (IH s1 b beh).
+      destruct (lrun s1 a beh) as [s2 e2]. cbn [fst snd]. rewrite app_assoc. reflexivity.
+    + rewrite (IH s b beh). destruct (lrun s a beh) as [s2 e2]. cbn [fst snd]. reflexivity.
+Qed.
+
+(* if the final uv_run returned 0, every handle on which uv_close was called
+   (CLOSING set) has had its close callback *)
+Theorem close_cb_eventually t0 m os md beh pre i :
+  let s' := lfinal t0 m (os ++ [LRun md]) beh in
+  ltrace t0 m (os ++ [LRun md]) beh = pre ++ [VRun false] ->
+  (i < length (hs s'))%nat -> h_closing (hget s' i) = true ->
+  exists nw, In (VCb 6 i nw) (ltrace t0 m (os ++ [LRun md]) beh).
+Proof.
+  intros s' E Hi Hc.
+  destruct (ltrace_ok t0 m (os ++ [LRun md]) beh) as ((Hinv & _) & _). fold s' in Hinv.
+  apply close_cb_iff_closed. fold s'. split; [exact Hi|].
+  (* the loop is not alive at the end: nothing is on the closing list *)
+  assert (Ha : loop_alive s' = false).
+  { unfold s', lfinal in *. unfold ltrace in E. rewrite lrun_app in *. cbn [fst snd] in *.
+    set (s1 := fst (lrun (linit t0 m) os beh)) in *.
+    cbn [lrun] in *.
+    destruct (uv_run_result run_fuel s1 beh md) as (p & r & Er & Hr).
+    destruct (uv_run run_fuel s1 beh md) as [s2 e2]. cbn [fst snd] in *.
+    apply Hr. rewrite Er in E. rewrite app_nil_r in E.
+    change (VRunStart md (loop_alive s1) :: p ++ [VRun r]) with ((VRunStart md (loop_alive s1) :: p) ++ [VRun r]) in E.
+    rewrite app_assoc in E. apply app_inj_tail in E. destruct E as (_ & E). inversion E. reflexivity. }
+  unfold loop_alive in Ha. apply orb_false_iff in Ha. destruct Ha as (_ & Ha).
+  apply negb_false_iff in Ha.
+  destruct (closing s') eqn:Ecl; [|discriminate].
+  destruct Hinv as [HI _].
+  destruct (h_closed (hget s' i)) eqn:Ed; [reflexivity|].
+  assert (Hin : In i (closing s' ++ [])) by (apply (hi_cl _ _ HI); auto).
+  rewrite Ecl in Hin. destruct Hin.
+Qed.
+
+(* LClose sets UV_HANDLE_CLOSING *)
+Theorem close_sets_closing s i :
+  usable s i = true -> h_closing (hget (fst (lapi s (LClose i))) i) = true.
+Proof.
+  intros U. cbn [lapi]. rewrite U. destruct (h_closing (hget s i)) eqn:Ec; cbn [negb andb fst]; [exact Ec|].
+  apply usable_facts in U. destruct U as [Hi _].
+  unfold l_close. rewrite Ec.
+  change (hget (set_closing ?x ?v) i) with (hget x i).
+  set (s1 := upd_h s i (with_closing true)).
+  assert (G1 : hget s1 i = with_closing true (hget s i)) by (apply hget_upd_h_same; exact Hi).
+  assert (L1 : length (hs s1) = length (hs s)) by apply len_upd_h.
+  destruct (h_kind (hget s i)).
+  - pose proof (handle_stop_fl (set_ts s1 (timer_close (ts s1) i)) i ltac:(cbn [hs set_ts]; lia)) as F.
+    unfold fl in F. inversion F as [[F1 F2 F3 F4]]. rewrite F3.
+    change (hget (set_ts s1 (timer_close (ts s1) i)) i) with (hget s1 i). rewrite G1. reflexivity.
+  - unfold watcher_stop. destruct (h_active (hget s1 i)); [|rewrite G1; reflexivity].
+    match goal with |- h_closing (hget (handle_stop ?x i) i) = true =>
+      pose proof (handle_stop_fl x i) as F; assert (Hx : hget x i = hget s1 i /\ length (hs x) = length (hs s1))
+        by (destruct (h_kind (hget s1 i)); split; reflexivity) end.
+    destruct Hx as (Hx1 & Hx2). unfold fl in F. specialize (F ltac:(lia)). inversion F as [[F1 F2 F3 F4]].
+    rewrite F3, Hx1, G1. reflexivity.
+  - unfold watcher_stop. destruct (h_active (hget s1 i)); [|rewrite G1; reflexivity].
+    match goal with |- h_closing (hget (handle_stop ?x i) i) = true =>
+      pose proof (handle_stop_fl x i) as F; assert (Hx : hget x i = hget s1 i /\ length (hs x) = length (hs s1))
+        by (destruct (h_kind (hget s1 i)); split; reflexivity) end.
+    destruct Hx as (Hx1 & Hx2). unfold fl in F. specialize (F ltac:(lia)). inversion F as [[F1 F2 F3 F4]].
+    rewrite F3, Hx1, G1. reflexivity.
+  - unfold watcher_stop. destruct (h_active (hget s1 i)); [|rewrite G1; reflexivity].
+    match goal with |- h_closing (hget (handle_stop ?x i) i) = true =>
+      pose proof (handle_stop_fl x i) as F; assert (Hx : hget x i = hget s1 i /\ length (hs x) = length (hs s1))
+        by (destruct (h_kind (hget s1 i)); split; reflexivity) end.
+    destruct Hx as (Hx1 & Hx2). unfold fl in F. specialize (F ltac:(lia)). inversion F as [[F1 F2 F3 F4]].
+    rewrite F3, Hx1, G1. reflexivity.
+  - match goal with |- h_closing (hget (handle_stop ?x i) i) = true =>
+      pose proof (handle_stop_fl x i) as F end.
+    unfold fl in F. specialize (F ltac:(cbn [hs set_alq set_async]; rewrite len_upd_h; lia)).
+    inversion F as [[F1 F2 F3 F4]]. rewrite F3.
+    change (h_closing (hget (upd_h s1 i (with_pending true)) i) = true).
+    rewrite hget_upd_h_same by lia. rewrite G1. reflexivity.
+Qed.
+
+(* the hypotheses of the theorems above are satisfiable: a script with all
+   five kinds, closes from outside and from inside callbacks *)
+Example loopcore_example :
+  let os := [LInit KTimer true; LInit KIdle true; LInit KAsync true; LInit KCheck true; LInit KPrepare true;
+             LTStart 0 (Some 1%nat) 0 0; LStart 1 true; LStart 3 true; LStart 4 true; LSend 2;
+             LClose 4; LRun 0] in
+  let beh := fun k => match k with O => [LClose 1] | 1%nat => [LClose 0; LClose 2] | 2%nat => [LClose 3] | _ => [] end in
+  exists pre, ltrace 0 false os beh = pre ++ [VRun false] /\
+  forall i, (i < 5)%nat -> exists nw, In (VCb 6 i nw) (ltrace 0 false os beh).
+Proof.
+  cbn zeta. eexists. split.
+  - vm_compute. match goal with |- ?l = _ => let x := eval vm_compute in (removelast l) in instantiate (1 := x) end.
+    reflexivity.
+  - intros i Hi. vm_compute.
+    destruct i as [|[|[|[|[|i]]]]]; try lia; eexists; simpl; tauto.
 Qed.
